@@ -1,6 +1,6 @@
 (* C14 - Documents, patches and their byte encodings round-trip. *)
 From Coq Require Import String List Bool.
-From Sidetree Require Import Json.Json Sidetree.JsonPatch Sidetree.Composer Sidetree.Validator Sidetree.Builders Sidetree.RoundTrip.
+From Sidetree Require Import Json.Json Sidetree.JsonPatch Sidetree.Composer Sidetree.Validator Sidetree.Builders Sidetree.RoundTrip Sidetree.Constructors.
 Import ListNotations.
 Open Scope string_scope.
 
@@ -28,6 +28,40 @@ Theorem C14_doc_patches_roundtrip : forall doc, doc_class doc ->
   exists ps d, patches_from_document doc = Some ps /\ apply_patches [] ps = Some d /\ (forall k, lookup k d = lookup k doc).
 Proof. exact doc_patches_roundtrip. Qed.
 Print Assumptions C14_doc_patches_roundtrip.
+
+(* every patch produced by the patch constructors from valid input passes validation: the patch a
+   constructor returns validates exactly when its argument meets the validator's condition for that
+   action ([input_valid]), and such an argument is never refused. uri_ok / url_norm stand for net/url. *)
+Theorem C14_constructed_patch_validates : forall uri_ok url_norm a v p,
+  new_patch a v = Some p -> validate_patch uri_ok url_norm p = input_valid uri_ok url_norm a v.
+Proof. exact constructed_patch_validates. Qed.
+Print Assumptions C14_constructed_patch_validates.
+
+Theorem C14_valid_input_constructs : forall uri_ok url_norm a v,
+  input_valid uri_ok url_norm a v = true ->
+  exists p, new_patch a v = Some p /\ validate_patch uri_ok url_norm p = true.
+Proof. exact valid_input_constructs. Qed.
+Print Assumptions C14_valid_input_constructs.
+
+(* the action and value accessors of a constructed patch give back the constructor's action and its
+   argument (for the id / URI constructors: the argument read as a list of strings) *)
+Theorem C14_constructed_patch_accessors : forall a v p,
+  new_patch a v = Some p ->
+  exists q w, p = JObj q /\ get_action q = Some a /\ get_value q = Some w /\
+              (match a with
+               | ARemovePublicKeys | ARemoveServices | AAddAlsoKnownAs | ARemoveAlsoKnownAs =>
+                   exists l, get_string_array v = Some l /\ w = JArr (map JStr l)
+               | _ => w = v
+               end).
+Proof. exact constructed_patch_accessors. Qed.
+Print Assumptions C14_constructed_patch_accessors.
+
+Example C14_constructor_example :
+  new_patch ARemovePublicKeys (JArr [JStr "k1"; JNull]) =
+    Some (JObj [("action", JStr "remove-public-keys"); ("ids", JArr [JStr "k1"; JStr ""])]) /\
+  new_patch ARemovePublicKeys (JArr []) = None /\
+  new_patch AReplace (JObj [("other", JNum "1")]) = None.
+Proof. vm_compute. repeat split. Qed.
 
 (* a member name with '/' or '~' needs escaping the builder does not do: outside the class *)
 Example C14_class_boundary :
